@@ -260,10 +260,15 @@ def resend (s : Sender α) (seq : Nat) : Sender α × List (Tx α) :=
 
 /-! ### `put(ack)` -/
 
-/-- duplicate-ACK counting: `dupack += 1` on a repeated ACK number, else leave fast recovery -/
+/-- a run of duplicate ACKs ends: `if self.dupack >= 3: dupack_over()` (leaving fast recovery deflates the window;
+after only one or two duplicates nothing is deflated), then `self.dupack = 0` -/
+def leaveDups (s : Sender α) : Sender α :=
+  if s.dupack ≥ 3 then { s with cc := CongestionControl.dupack_over s.cc, dupack := 0 } else { s with dupack := 0 }
+
+/-- duplicate-ACK counting: `dupack += 1` on a repeated ACK number, else end a run of duplicates -/
 def countDup (s : Sender α) (ackno : Nat) : Sender α :=
   if ackno = s.last_ack then { s with dupack := s.dupack + 1 }
-  else if s.dupack > 0 then { s with cc := CongestionControl.dupack_over s.cc, dupack := 0 }
+  else if s.dupack > 0 then s.leaveDups
   else s
 
 /-- the third duplicate: `consecutive_dupacks_received(); resend_packet(ackno)` -/
